@@ -148,6 +148,7 @@ func (x *stubEx) Broadcast(_ context.Context, duty core.Duty, set core.ParSigned
 	}
 	w := x.nd.w
 	w.outbox = append(w.outbox, raw)
+	w.from = append(w.from, x.nd.idx)
 	x.nd.out = append(x.nd.out, len(w.outbox))
 
 	return nil
@@ -268,6 +269,7 @@ type world struct {
 	duty       core.Duty
 	nodes      map[int]*node
 	outbox     [][]byte
+	from       []int // sender of each outbox entry
 	cands      map[string]*eth2p0.AttestationData
 	candByRoot map[[32]byte]string
 	valOf      map[core.PubKey]int
@@ -539,8 +541,8 @@ func (w *world) step(st drv.Step) {
 	case "Deliver":
 		nd := live("to")
 		k := drv.Num(st["k"])
-		if nd == nil || k < 1 || k > len(w.outbox) {
-			return
+		if nd == nil || k < 1 || k > len(w.outbox) || w.from[k-1] == nd.idx {
+			return // lost, or not sent yet; a node never sends to itself
 		}
 		verr, serr := w.receive(nd, w.outbox[k-1])
 		w.log(drv.Step{"ev": "Deliver", "k": k, "to": nd.idx, "verr": verr != nil, "err": serr != nil,
